@@ -6,6 +6,8 @@ pub mod exact;
 pub mod keys;
 pub mod keys_gen;
 pub mod mutate;
+pub mod ops;
+pub mod ops_run;
 pub mod pack;
 pub mod spec;
 pub mod oracle;
